@@ -23,7 +23,7 @@ From Anthem Require Import Base.ISet Syntax.Fol Syntax.Asp Sem.Domain Sem.Sat
   Model.Apply Model.SimplIntuit Model.SimplClassic Model.Problem Model.Outline Model.Strong Model.External
   Model.Tightness Model.PrivRec Model.TauStar Model.Completion Model.StrategyCls Model.ExternalFull
   Proofs.DecomposeOk Proofs.StrongOk Proofs.ExternalOk Proofs.C02Ok
-  Proofs.HeadPred Proofs.HeadPredPipeline Proofs.C19Ext Proofs.C19ExtFull.
+  Proofs.HeadPred Proofs.HeadPredPipeline Proofs.C19Ext Proofs.C19ExtFull Proofs.NoClashDec.
 Open Scope string_scope.
 Open Scope list_scope.
 
@@ -219,4 +219,27 @@ Proof.
   eexists _, _, _, _. split; [vm_compute; reflexivity|]. split; [vm_compute; reflexivity|].
   split; [vm_compute; reflexivity|]. split; [vm_compute; reflexivity|].
   split; [reflexivity|]. split; reflexivity.
+Qed.
+
+(* ... and every premise of C19_external_simplify is discharged on it (the clash premises by the
+   decision procedure of Proofs/NoClashDec.v): the theorem applies, both families of problems are
+   refuted by the same interpretations *)
+Example C19ext_premises :
+  exists pbs pbs',
+    external_decompose_full full_fuel (with_flags taux true true DIndependent) = XOk [] pbs /\
+    external_decompose_full full_fuel (with_flags taux false true DIndependent) = XOk [] pbs' /\
+    (forall vt, task_validated tau_star_total completion (simp_classic_total full_fuel) (with_flags taux true true DIndependent) = Some vt ->
+                validated_no_clash vt) /\
+    (forall vt, task_validated tau_star_total completion (simp_classic_total full_fuel) (with_flags taux false true DIndependent) = Some vt ->
+                validated_no_clash vt) /\
+    pbs <> [] /\
+    forall FI M, refutes_some FI M pbs <-> refutes_some FI M pbs'.
+Proof.
+  assert (N1 : forall vt, task_validated tau_star_total completion (simp_classic_total full_fuel) (with_flags taux true true DIndependent) = Some vt ->
+                validated_no_clash vt) by (apply NoClashDec.task_no_clashb_spec; vm_compute; reflexivity).
+  assert (N2 : forall vt, task_validated tau_star_total completion (simp_classic_total full_fuel) (with_flags taux false true DIndependent) = Some vt ->
+                validated_no_clash vt) by (apply NoClashDec.task_no_clashb_spec; vm_compute; reflexivity).
+  eexists _, _. split; [vm_compute; reflexivity|]. split; [vm_compute; reflexivity|].
+  split; [exact N1|]. split; [exact N2|]. split; [discriminate|].
+  apply (C19_external_simplify full_fuel taux true DIndependent [] _ [] _); [vm_compute; reflexivity|vm_compute; reflexivity|exact N1|exact N2].
 Qed.
